@@ -220,3 +220,9 @@ func c20R10(c *Ctx) {
 func c17R5(c *Ctx) {
 	shareRule(c, "C14.R8", "C17.R5", c14R8, "the prepare phase annotates only its own copies of the expression objects: a second preparation of the same parsed workflow does not write what a running workflow reads")
 }
+
+// C16: when two fields collide on one node id or one connection, the collision has to be an error. Swallowing it
+// (look-up-or-create, "already exists is fine") lets the field that map iteration visits first decide the node's kind.
+func c16R7(c *Ctx) {
+	shareRule(c, "C10.R1b", "C16.R7", c10R1b, "every error obtained on the prepare path is tested and propagated (only the tabled duplicate-connection idiom is tolerated): a swallowed duplicate-node / duplicate-connection error makes the graph depend on which of two colliding paths map iteration visits first")
+}
